@@ -109,11 +109,11 @@ const unreached State = 1 << 63
 
 // Analysis describes a forward dataflow problem over one Flow.
 type Analysis struct {
-	Must     bool                                        // join = AND (must) else OR (may)
-	Entry    State
-	Node     func(n ast.Node, s State) State             // transfer over one CFG node
-	Edge     func(b *cfg.Block, succ int, s State) State // optional edge refinement
-	in       map[*cfg.Block]State
+	Must  bool // join = AND (must) else OR (may)
+	Entry State
+	Node  func(n ast.Node, s State) State             // transfer over one CFG node
+	Edge  func(b *cfg.Block, succ int, s State) State // optional edge refinement
+	in    map[*cfg.Block]State
 }
 
 func (fl *Flow) solve(a *Analysis) {
